@@ -24,7 +24,8 @@ where
     // states
     // (current node, anchor_id) tuple
     doc_stack: Vec<(Node, usize)>,
-    key_stack: Vec<Node>,
+    /// For each open mapping, the key waiting for its value (if any).
+    key_stack: Vec<Option<Node>>,
     anchor_map: BTreeMap<usize, Node>,
     marker: PhantomData<&'input u32>,
     /// See [`Self::early_parse()`]
@@ -223,7 +224,7 @@ where
                     Node::from_bare_yaml(Yaml::Mapping(Mapping::new())).with_span(span),
                     aid,
                 ));
-                self.key_stack.push(Node::from_bare_yaml(Yaml::BadValue));
+                self.key_stack.push(None);
             }
             Event::MappingEnd => {
                 self.key_stack.pop().unwrap();
@@ -271,13 +272,14 @@ where
                 parent_node.sequence_mut().push(node.0);
             } else if parent_node.is_mapping() {
                 let cur_key = self.key_stack.last_mut().unwrap();
-                if cur_key.is_badvalue() {
-                    // current node is a key
-                    *cur_key = node.0;
-                } else {
+                match cur_key.take() {
+                    // current node is a key (which may itself be a `BadValue`)
+                    None => *cur_key = Some(node.0),
                     // current node is a value
-                    let hash = parent_node.mapping_mut();
-                    hash.insert(cur_key.take().into(), node.0);
+                    Some(key) => {
+                        let hash = parent_node.mapping_mut();
+                        hash.insert(key.into(), node.0);
+                    }
                 }
             }
         } else {
